@@ -60,6 +60,7 @@ Definition check_run (s : list decl) (impl : list int) : string := first_diff 0 
 D1 = 'array-copy-aliases-attributes'
 D2 = 'array-copy-loses-fill'
 D3 = 'sizeref-without-delta'
+SIZEOF = 'sizeof-target-not-repointed'
 
 # ---------------------------------------------------------------------------------------------------------------------
 # real parser
@@ -303,6 +304,8 @@ def prefix_copy(prefix, member, comments):
 	value = member['value']
 	if isinstance(value, tuple):
 		value = ('if', value[1], value[2], point(value[3]))
+	elif member['disp'] == 'sizeof' and isinstance(value, str):
+		value = prefix if value == '__value__' else point(value)   # the measured member is copied too: the reference follows it
 	return {
 		'k': 'field', 'name': prefix if member['name'] == '__value__' else point(member['name']), 'type': kind, 'value': value,
 		'disp': member['disp'], 'attrs': member['attrs'], 'comment': comments.get(member['name'])}
@@ -313,7 +316,10 @@ def is_named_site(member):
 
 
 def classify_member_difference(expected, actual_text):
-	"""Stable signature for the two known Array.copy defects, None otherwise."""
+	"""Stable signature for the known copy defects (Array.copy aliasing / fill, sizeof target kept verbatim), None otherwise."""
+	if expected['k'] == 'field' and expected['disp'] == 'sizeof' and isinstance(expected['value'], str):
+		if re.fullmatch(re.escape(t_field(dict(expected, value='\0'))).replace(re.escape(_q('\0')), r"'[^' ]*'"), actual_text):
+			return SIZEOF
 	if expected['k'] != 'field' or expected['type'][0] != 'array':
 		return None
 	kind = expected['type']
@@ -883,6 +889,20 @@ struct User
 
 struct User
 	payload = inline Tmpl
+''',
+	'sizeof-in-template': '''inline struct Tpl
+	r1_size = sizeof(uint8, r1)
+	r1 = Body
+	count = uint8
+	__value__ = array(Body, count)
+
+struct Body
+	value = uint8
+
+struct User
+	# [r1_size] size of the first body
+	bar = inline Tpl
+	baz = inline Tpl
 ''',
 	'sizeref-without-delta': '''struct Holder
 	@sizeref(body)
